@@ -74,6 +74,7 @@ type FuncContract struct {
 	Modifies    []*Expr
 	Assigns     []string // ghost variables the function may change
 	ModifiesAll bool
+	ModifiesTypes []string // "modifies allof T": any cell holding a value of Go type T may change
 	ModifiesMaps bool
 	Loops       map[string]*LoopSpec
 	LoopOrder   []string
@@ -320,6 +321,10 @@ func ParseContractFile(path, pkgPath string) (*ContractFile, error) {
 				}
 				if rest == "maps" {
 					cur.ModifiesMaps = true
+					break
+				}
+				if strings.HasPrefix(rest, "allof ") {
+					cur.ModifiesTypes = append(cur.ModifiesTypes, strings.TrimSpace(rest[6:]))
 					break
 				}
 				for _, part := range splitTopLevel(rest, ',') {
